@@ -52,7 +52,10 @@ pub fn run(r: &Report) {
     let per_ref = &per_carrier;
     vcore::par::for_each(r.args.jobs, 4, work.into_iter(), |(i, t)| {
         let e = &entries_ref[i];
-        for (v, _acc) in values::top_cases(&t) {
+        for (v, acc) in values::top_cases(&t) {
+            if acc == values::Accept::May {
+                continue; // acceptance undetermined (empty into counter/duration/composites): judged in the dyn leg only
+            }
             r.eval(1);
             match (e.c01)(&t, &v, st_ref) {
                 Ok(true) => {
